@@ -113,6 +113,8 @@ class Box:
         self.known = []
         self.unconfirmed = []
         self.skipped = 0
+        self.predicted_not_run = 0
+        self.transient = []
 
     def launch(self, key, n, bcast, short, threads, args, timeout):
         argv = [self.exe, '--threads', str(threads)] + args
@@ -178,7 +180,41 @@ def run_box(ctx, box, launches_spec, jobs, deadline, case_timeout, launch_timeou
         if normal:
             queue.append((s, normal, batch))
         for c, info in sorted(predicted.items()):
+            # thorough: the (many) predicted placements are run for one thread and the small tile only (both short limits)
+            if box.tier == 'thorough' and (s['threads'] != 1 or c[2] != ELEMS[0]):
+                box.predicted_not_run += 1
+                continue
             predicted_all.append((s, c, info))
+    def predicted_launches():
+        L = []
+        for i, (s, c, info) in enumerate(predicted_all):
+            l = box.launch('p%d-n%d-b%d-s%s-t%d' % (i, s['n'], s['bcast'], s['short'], s['threads']), s['n'], s['bcast'], s['short'], s['threads'],
+                           ['--case-timeout', str(min(case_timeout, 4)), '--batch', '1', '--only', cid(c)], launch_timeout)
+            l.meta['cases'] = [c]; l.meta['info'] = info; l.meta['spec'] = s; l.meta['predicted'] = True
+            L.append(l)
+        return L
+
+    def judge_predicted(res):
+        m = res.launch.meta
+        c = m['cases'][0]
+        if os.environ.get('C05_TIMES'):
+            sys.stderr.write('launch %s predicted status=%s elapsed=%.1fs\n' % (res.launch.key, res.status, res.elapsed))
+        lost, attributable, dup, owner = m['info']
+        done, fails, stopped = box.account(res, [c])
+        failed = bool(fails) or stopped is not None or not res.ok()
+        what = ('%s n=%d bcast=%s short_limit=%s threads=%d: predicted lost deliveries (class, instance, rank, output) %s'
+                % (describe(V, c, m['n']), m['n'], TOPO[m['bcast']], 'default' if m['short'] is None else m['short'], m['threads'], lost))
+        if not failed:
+            box.ctx.broken.append('the propagation model predicts a lost activation but the real run passed: ' + what)
+            return
+        kid = KNOWN.get(m['bcast'])
+        sym = fails.get(c) or ('does not terminate / aborts (%s rc %s)' % (res.status, res.rc))
+        if attributable and not dup and kid and known_entry(kid):
+            box.known.append('id=%s %s; observed: %s' % (kid, what, sym[:200]))
+        else:
+            msg = what + ' (NOT attributable to a listed known finding); observed: ' + sym
+            box.violations.append((box.replay_obj(m, c, msg), msg))
+
     rnd = 0
     suspects = []
     while queue and not box.violations:
@@ -190,12 +226,19 @@ def run_box(ctx, box, launches_spec, jobs, deadline, case_timeout, launch_timeou
             l.meta['cases'] = cases; l.meta['spec'] = s; l.meta['batch'] = b
             L.append(l)
         L.sort(key=lambda l: -l.n * len(l.meta['cases']))
-        results, skip = mp.run_box(L, box.root, jobs=jobs, timeout=launch_timeout, deadline=deadline, confirm=False, max_ranks=32)
+        if rnd == 1:
+            # the points at which the model predicts the known finding run alone (one launch each), interleaved with the others
+            L += predicted_launches()
+            predicted_all = []
+        results, skip = mp.run_box(L, box.root, jobs=jobs, timeout=launch_timeout, deadline=deadline, confirm=False, max_ranks=48)
         for sk in skip:
             box.skipped += len(sk.meta['cases'])
         queue = []
         for res in results:
             box.launches += 1
+            if res.launch.meta.get('predicted'):
+                judge_predicted(res)
+                continue
             cases, s, b = res.launch.meta['cases'], res.launch.meta['spec'], res.launch.meta['batch']
             if os.environ.get('C05_TIMES'):
                 sys.stderr.write('launch %s cases=%d batch=%d status=%s elapsed=%.1fs\n' % (res.launch.key, len(cases), b, res.status, res.elapsed))
@@ -207,6 +250,10 @@ def run_box(ctx, box, launches_spec, jobs, deadline, case_timeout, launch_timeou
             if stopped is not None:
                 k = cases.index(stopped)
                 why = 'launch %s (rc %s); stderr: %s' % (res.status, res.rc, res.stderr[-500:].replace('\n', ' | '))
+                r0 = res.ranks.get(0, {})
+                box.transient.append('n=%d bcast=%s short=%s threads=%d batch of %d starting at %s stopped (%s rc %s, rank 0 stage %s); stderr: %s'
+                                     % (s['n'], TOPO[s['bcast']], s['short'], s['threads'], b, describe(V, stopped, s['n']), res.status, res.rc, r0.get('stage'),
+                                        ' | '.join(x for x in res.stderr.splitlines() if x.strip() and not x.startswith('---'))[-700:]))
                 if b == 1:
                     suspects.append((s, stopped, why))
                     if cases[k + 1:]:
@@ -237,37 +284,12 @@ def run_box(ctx, box, launches_spec, jobs, deadline, case_timeout, launch_timeou
             break
     for s, cases, b in queue:
         box.skipped += len(cases)
-    # predicted cases: each alone (they are expected to stall or abort), `jobs` launches at a time
-    if predicted_all and not box.violations:
-        L = []
-        for i, (s, c, info) in enumerate(predicted_all):
-            l = box.launch('p%d-n%d-b%d-s%s-t%d' % (i, s['n'], s['bcast'], s['short'], s['threads']), s['n'], s['bcast'], s['short'], s['threads'],
-                           ['--case-timeout', str(min(case_timeout, 4)), '--batch', '1', '--only', cid(c)], launch_timeout)
-            l.meta['cases'] = [c]; l.meta['info'] = info; l.meta['spec'] = s
-            L.append(l)
-        results, skip = mp.run_box(L, box.root, jobs=jobs, timeout=launch_timeout, deadline=deadline, confirm=False, max_ranks=32)
+    if predicted_all and not box.violations:      # (only when there was no normal case at all)
+        results, skip = mp.run_box(predicted_launches(), box.root, jobs=jobs, timeout=launch_timeout, deadline=deadline, confirm=False, max_ranks=48)
         box.skipped += len(skip)
         for res in results:
             box.launches += 1
-            m = res.launch.meta
-            c = m['cases'][0]
-            if os.environ.get('C05_TIMES'):
-                sys.stderr.write('launch %s predicted status=%s elapsed=%.1fs\n' % (res.launch.key, res.status, res.elapsed))
-            lost, attributable, dup, owner = m['info']
-            done, fails, stopped = box.account(res, [c])
-            failed = bool(fails) or stopped is not None or not res.ok()
-            what = ('%s n=%d bcast=%s short_limit=%s threads=%d: predicted lost deliveries (class, instance, rank, output) %s'
-                    % (describe(V, c, m['n']), m['n'], TOPO[m['bcast']], 'default' if m['short'] is None else m['short'], m['threads'], lost))
-            if not failed:
-                box.ctx.broken.append('the propagation model predicts a lost activation but the real run passed: ' + what)
-                continue
-            kid = KNOWN.get(m['bcast'])
-            sym = fails.get(c) or ('does not terminate / aborts (%s rc %s)' % (res.status, res.rc))
-            if attributable and not dup and kid and known_entry(kid):
-                box.known.append('id=%s %s; observed: %s' % (kid, what, sym[:200]))
-            else:
-                msg = what + ' (NOT attributable to a listed known finding); observed: ' + sym
-                box.violations.append((box.replay_obj(m, c, msg), msg))
+            judge_predicted(res)
     shutil.rmtree(box.root, ignore_errors=True)
 
 
@@ -276,6 +298,8 @@ def check(ctx):
     exe, V = build(ctx, ctx.tier)
     box = Box(ctx, exe, V, ctx.tier)
     t0 = time.time()
+    if os.environ.get('C05_TIMES'):
+        sys.stderr.write('build done at %.1fs\n' % (t0 - ctx.t0))
     deadline = t0 + (70 if quick else 1050)
     specs = []
     allv = list(range(len(V)))
@@ -288,14 +312,14 @@ def check(ctx):
         # the n = 3 two-output reproducer (P(0)@0: X -> C1(1..2)@{1,2}, Y -> C2(2)@2) under every configuration, as ordinary cases:
         # plan() moves it to the predicted list exactly where the propagation model says an activation is lost
         vi = V.index(('twoout', 3, 2, 2))
-        specs += [dict(n=3, bcast=b, short=s, threads=t, vidx=[vi], only_p=[0 + 1 * 3 + 2 * 9]) for b, s, t in cfgs]
+        specs += [dict(n=3, bcast=b, short=s, threads=t, vidx=[vi], only_p=[0 + 1 * 3 + 2 * 9]) for b, s, t in cfgs if t == 1 or (b, s) == (1, None)]
     else:
         for n in (1, 2, 3, 4):
             for b, s, t in cfgs:
                 if n == 1 and (b, s) != (1, None):
                     continue            # one process: no message is ever sent, the communication settings are irrelevant
                 specs.append(dict(n=n, bcast=b, short=s, threads=t, vidx=allv))
-    run_box(ctx, box, specs, jobs=8, deadline=deadline, case_timeout=8 if quick else 10, launch_timeout=60 if quick else 600)
+    run_box(ctx, box, specs, jobs=16, deadline=deadline, case_timeout=8 if quick else 10, launch_timeout=60 if quick else 600)
     for obj, msg in box.violations[:8]:
         rp = ctx.write_replay('n%d-b%d-s%s-t%d-%s' % (obj['n'], obj['bcast'], obj['short'], obj['threads'], '_'.join(map(str, obj['case']))), obj)
         ctx.violation(rp, msg[:1500])
@@ -303,8 +327,12 @@ def check(ctx):
         ctx.known_finding(k)
     for u in box.unconfirmed:
         ctx.notes.append('unconfirmed (passed when re-run alone with 4x limits, not counted): ' + u)
+    for t in box.transient[:6]:
+        ctx.notes.append('a launch stopped and its cases were re-run (a reproduced failure is reported as a violation, this is the first sighting): ' + t)
     if box.skipped:
         ctx.notes.append('deadline: %d cases not run' % box.skipped)
+    if box.predicted_not_run:
+        ctx.notes.append('%d points at which the propagation model predicts the known finding were not executed (thorough runs them for threads=1, 64-byte tiles only)' % box.predicted_not_run)
     ctx.add_leg(name='ptg-family-box', engine='mp', states=len(box.points), transitions=box.transitions, executions=box.executions,
                 nontrivial=len(box.nontrivial), distinct_outcomes=len(box.outcomes), exhaustive=(box.skipped == 0 and not box.violations),
                 samples=box.samples, launches=box.launches, variants=len(V), known_cases=len(box.known))
